@@ -829,6 +829,46 @@ class Executor:
     def i_kxorq(self, st, ins, ops):
         self.wr(st, ops[0], self.rd(st, ops[1], ins) ^ self.rd(st, ops[2], ins), ins)
 
+    def i_kxnorq(self, st, ins, ops):
+        self.wr(st, ops[0], ~(self.rd(st, ops[1], ins) ^ self.rd(st, ops[2], ins)), ins)
+
+    def i_kandnq(self, st, ins, ops):
+        self.wr(st, ops[0], ~self.rd(st, ops[1], ins) & self.rd(st, ops[2], ins), ins)
+
+    def i_kaddq(self, st, ins, ops):
+        self.wr(st, ops[0], self.rd(st, ops[1], ins) + self.rd(st, ops[2], ins), ins)
+
+    def _kshift(self, st, ins, ops, right):
+        if not isinstance(ops[2], Imm):
+            raise Inconclusive("mask shift count operand at %s" % ins)
+        a = self.rd(st, ops[1], ins)
+        n = ops[2].value & 0xff
+        if n > 63:
+            res = BV(0, 64)         # counts above 63 clear the destination
+        else:
+            res = simp(z3.LShR(a, BV(n, 64)) if right else (a << BV(n, 64)))
+        self.wr(st, ops[0], res, ins)
+
+    def i_kshiftrq(self, st, ins, ops):
+        self._kshift(st, ins, ops, True)
+
+    def i_kshiftlq(self, st, ins, ops):
+        self._kshift(st, ins, ops, False)
+
+    def i_kortestq(self, st, ins, ops):
+        r = self.rd(st, ops[0], ins) | self.rd(st, ops[1], ins)
+        st.flags["zf"] = simp(r == 0)
+        st.flags["cf"] = simp(r == BV((1 << 64) - 1, 64))
+        st.flags["of"] = z3.BoolVal(False)
+        st.flags["sf"] = z3.BoolVal(False)
+
+    def i_ktestq(self, st, ins, ops):
+        a, b = self.rd(st, ops[0], ins), self.rd(st, ops[1], ins)
+        st.flags["zf"] = simp((a & b) == 0)
+        st.flags["cf"] = simp((~a & b) == 0)
+        st.flags["of"] = z3.BoolVal(False)
+        st.flags["sf"] = z3.BoolVal(False)
+
     # vector moves
     def _vmov(self, st, ins, ops):
         w = self.opw(ops[0]) or self.opw(ops[1])
